@@ -120,6 +120,36 @@ struct World {
     if (!eq_ordered(sl.model, got)) return "doc " + std::to_string(di) + " differs from the model (expected vs got) at " + mv_diff(sl.model, got);
     check_lookups(static_cast<const N&>(*sl.doc), sl.model, &err, true);
     if (!err.empty()) return "lookup inconsistency in doc " + std::to_string(di) + ": " + err;
+    // probe every object with every key of the static pool: keys that were members earlier (before a Remove / Erase /
+    // Clear / Set*) must be absent now, present ones must be found
+    {
+      std::function<std::string(const N&, const MV&)> probe = [&](const N& n, const MV& m) -> std::string {
+        if (m.k == MV::Arr) {
+          for (size_t i = 0; i < m.a.size(); i++) {
+            std::string r = probe(n[i], m.a[i]);
+            if (!r.empty()) return r;
+          }
+        } else if (m.k == MV::Obj) {
+          for (auto& k : kKeys) {
+            bool present = m.find(k) != nullptr;
+            StringView sv(k.data(), k.size());
+            bool f1 = n.FindMember(sv) != n.MemberEnd(), f2 = n.FindMember(k.data(), k.size()) != n.MemberEnd();
+            bool f3 = n.HasMember(sv);
+            if (f1 != present || f2 != present || f3 != present)
+              return "lookup of pool key " + printable(k, 20) + " says " + (f1 ? "present" : "absent") + "/" + (f2 ? "present" : "absent") + "/" +
+                     (f3 ? "present" : "absent") + " (view/ptr/HasMember) but the model says " + (present ? "present" : "absent");
+            if (!present && !n[sv].IsNull()) return "operator[] of an absent key is not a null node";
+          }
+          for (size_t i = 0; i < m.o.size(); i++) {
+            std::string r = probe((n.MemberBegin() + (long)i)->value, m.o[i].second);
+            if (!r.empty()) return r;
+          }
+        }
+        return "";
+      };
+      std::string r = probe(static_cast<const N&>(*sl.doc), sl.model);
+      if (!r.empty()) return "doc " + std::to_string(di) + ": " + r;
+    }
     // AtPointer (keys + indices, first-match for duplicate keys)
     refjson::Path p = gen_existing_path(s, sl.model, 8);
     const MV* want = refjson::resolve(sl.model, p);
